@@ -677,6 +677,14 @@ theorem mem_tensorPts_pointAt : ∀ (axes : List (List K)) (t : List K), t ∈ t
     obtain ⟨i, hi, rfl⟩ := List.getElem_of_mem ha
     exact ⟨i :: idx, ⟨hi, hok⟩, by simp [pointAt, List.getD_eq_getElem?_getD, hi]⟩
 
+theorem dot_reverse (c x : List K) (h : c.length = x.length) : dot c.reverse x.reverse = dot c x := by
+  unfold dot
+  rw [← List.reverse_zipWith h, List.sum_reverse]
+
+theorem affine_reverse (c0 : K) (c x : List K) (h : c.length = x.length) :
+    affine c0 c.reverse x.reverse = affine c0 c x := by
+  unfold affine; rw [dot_reverse c x h]
+
 /-! ### supersampling -/
 
 /-- the dithers all have `D` coordinates and add up to the zero vector -/
